@@ -181,12 +181,12 @@ fn main() {{}}
     gen = gen[:i1] + twin + gen[i1:]
     obls = [Obl("C15.binop.opassign-order", ["C15"], kind="kf", finding="D79", fn="compile_depth_binop_opassign_order",
                 desc="`place op= value` on an element / field: the place's own sub-expressions are evaluated before the value (left to right) -- known finding D79: the value's code comes first"),
-            Obl("C15.binop.layout", ["C15", "C09", "C12", "C01"], fn="compile_depth_binop",
+            Obl("C15.binop.layout", ["C15", "C09", "C12", "C01", "C08"], fn="compile_depth_binop",
                 desc="compile_depth BinOp arm: left operand's code strictly before the right operand's, each once; &&/|| emit store_skip with the skip landing one past the final bin_op (right operand not evaluated); the register holding the left value is not written by the right operand's code; for all operand code")]
     return gen, obls, log
 
 
-UNITS = [VUnit("c15_binop", ["C15", "C09", "C12", "C01"], "binary operators: operand order, short-circuit layout, register discipline", build)]
+UNITS = [VUnit("c15_binop", ["C15", "C09", "C12", "C01", "C08"], "binary operators: operand order, short-circuit layout, register discipline", build)]
 UNITS[0].assumes = ["recursive compile_depth calls (any operand expression) are assumed to satisfy the register frame contract this arm is proved to re-establish (induction hypothesis over the expression tree, not mechanised)",
                     "register allocator abstract: poll hands out the counter value; a register passed by value is released by the callee",
                     "operand shapes for op-assign / ?= as delivered by the parser are preconditions"]
